@@ -273,7 +273,49 @@ def rule_r6(p, res):
     r.check("weights *= self.eigenvalues ** 0.5" in s and "full_weights[..., :n_weights] = weights" in s, piv, piv.node, "normalised weights are scaled by the standard deviation of each component; short weight vectors are zero-padded")
 
 
-RULES = [rule_r1, rule_r2, rule_r3, rule_r4, rule_r5, rule_r6]
+def rule_r7(p, res):
+    r = res.rule("C10.R7", "a variance fraction is resolved against all stored components, never against the currently active prefix")
+    from .c08 import _self_reads
+    c = p.cls("PCAVectorModel")
+    st = c.setters.get("n_active_components")
+    need(st is not None, "C10.R7: n_active_components setter missing")
+    r.instance(st)
+    g = cfgmod.build(st.node)
+    val = st.params[1]
+    n_sites = 0
+    for n in walk_own(st.node):
+        if not isinstance(n, (ast.Assign, ast.If)):
+            continue
+        gs = [(norm(t), pol) for t, pol in g.guards(n)]
+        in_float = ("isinstance(%s, float)" % val, True) in gs
+        expr = None
+        if isinstance(n, ast.Assign) and norm(n.targets[0]) == val and in_float:
+            expr = n.value
+        elif isinstance(n, ast.If) and in_float:
+            expr = n.test
+        if expr is None:
+            continue
+        for k in ast.walk(expr):
+            if isinstance(k, ast.Call) and isinstance(k.func, ast.Attribute) and isinstance(k.func.value, ast.Name) and k.func.value.id == "self":
+                m = p.lookup(c, k.func.attr)
+                if m is None:
+                    continue
+                n_sites += 1
+                reads = _self_reads(p, m, c) | {k.func.attr}
+                bad = reads & {"n_active_components", "_n_active_components", "eigenvalues", "components"}
+                r.check(not bad, st, k, "the requested variance fraction is converted with self.%s(), which depends on the currently active components (%s): the "
+                        "result depends on earlier changes of the active count instead of being the same as building with that fraction" % (k.func.attr, ", ".join(sorted(bad))),
+                        {"helper": k.func.attr, "reads": sorted(reads)[:8]})
+            elif isinstance(k, ast.Attribute) and isinstance(k.value, ast.Name) and k.value.id == "self" and k.attr in ("eigenvalues", "components", "n_active_components"):
+                r.violation(st, k, "the variance-fraction branch reads the active view self.%s" % k.attr)
+    if n_sites < 2:
+        raise AnalysisError("C10.R7: the variance-fraction branch of the n_active_components setter was not recognised")
+    # the integer branch clamps to the stored component count
+    s = norm(st.node)
+    r.check("if 0 < %s <= self.n_components:" % val in s and "self._n_active_components = int(%s)" % val in s, st, st.node, "the active count must end up within 1..n_components")
+
+
+RULES = [rule_r1, rule_r2, rule_r3, rule_r4, rule_r5, rule_r6, rule_r7]
 
 WITNESSES = [
     Witness("C10.W1", "menpo/model/linear.py", "LinearVectorModel.project_vectors", "np.dot(vectors, self.components.T)", "np.dot(vectors, self.components)", rule="C10.R6", construct="project_vectors"),
@@ -286,5 +328,7 @@ WITNESSES = [
     Witness("C10.W7", "menpo/model/pca.py", "PCAVectorModel.trim_components", "self._eigenvalues = self._eigenvalues[:nac].copy()", "self._eigenvalues = self._eigenvalues[:nac + 1].copy()", rule="C10.R1", construct="trim_components"),
     Witness("C10.W8", "menpo/math/decomposition.py", "pca", "m = np.zeros(d, dtype=X.dtype)", "m = np.mean(X, axis=0)", rule="C10.R5", construct="pca"),
     Witness("C10.W9", "menpo/model/pca.py", "PCAVectorModel.original_variance", "self._eigenvalues.sum() + self._trimmed_eigenvalues.sum()", "self._eigenvalues.sum()", rule="C10.R1", construct="original_variance"),
+    Witness("C10.W10", "menpo/model/pca.py", "PCAVectorModel.n_active_components", "for r in self._total_eigenvalues_cumulative_ratio()", "for r in self.eigenvalues_cumulative_ratio()",
+            rule="C10.R7", construct="n_active_components", note="seeded change C10-B", count=1),
     Witness("C10.T1", "menpo/math/decomposition.py", "pca", "C = np.dot(X.conj().T, X) / (n - 1)", "nm1 = n - 1\n        C = np.dot(X.conj().T, X) / nm1", kind="T"),
 ]
